@@ -1529,6 +1529,34 @@ func (b *Bitmap) RemapRoaringStorage(data []byte) (mappedAny bool, returnErr err
 // If rowSize is non-zero, we should return a map of rows we altered,
 // where "rows" are sets of rowSize containers. Otherwise the map isn't used.
 // (This allows ImportRoaring to update caches; see fragment.go.)
+// CheckImportRoaringBits walks an import payload the way ImportRoaringBits
+// does before it applies anything, and returns the error the import would be
+// rejected with. A request that carries several payloads uses it to reject the
+// whole request before any of them has been applied.
+func CheckImportRoaringBits(data []byte) error {
+	if data == nil {
+		return errors.New("no roaring bitmap provided")
+	}
+	itr, err := newRoaringIterator(data)
+	if err != nil {
+		return err
+	}
+	if itr == nil {
+		return errors.New("failed to create roaring iterator, but don't know why")
+	}
+	key, cType, n, length, pointer, err := itr.Next()
+	for err == nil {
+		if cerr := checkImportedContainer(cType, n, length, pointer); cerr != nil {
+			return errors.Wrapf(cerr, "container with key %d", key)
+		}
+		key, cType, n, length, pointer, err = itr.Next()
+	}
+	if err != io.EOF {
+		return err
+	}
+	return nil
+}
+
 func (b *Bitmap) ImportRoaringBits(data []byte, clear bool, log bool, rowSize uint64) (changed int, rowSet map[uint64]int, err error) {
 	if data == nil {
 		return 0, nil, errors.New("no roaring bitmap provided")
